@@ -69,3 +69,100 @@ func verifWellFormedScript(ver uint8, nops int) {
 func VerifH_C05_api_wellformed_v2() { verifWellFormedScript(2, 2) }
 func VerifH_C05_api_wellformed_v0() { verifWellFormedScript(0, 2) }
 func VerifH_C05_api_wellformed_v3_thorough() { verifWellFormedScript(3, 3) }
+
+// header capacity boundary: an existing string attribute is replaced by one of forked length so that the object
+// header's message block passes through its 255-byte limit: either the call fails and nothing changes, or the
+// reopened file shows the new value; the file always reopens and the dataset keeps its data.
+func VerifH_C05_api_header_capacity() {
+	vrt.LoopBound(3000)
+	fw, err := CreateForWrite("c05h.h5", CreateTruncate)
+	vrt.AssertNoErr(err, "create-ok")
+	ds, err := fw.CreateDataset("/d", Int32, []uint64{1})
+	vrt.AssertNoErr(err, "create-dataset-ok")
+	x := vrt.I32()
+	vrt.AssertNoErr(ds.Write([]int32{x}), "write-ok")
+	vrt.AssertNoErr(ds.WriteAttribute("s", "x"), "first-attr-ok")
+	lo, span := 120, 80
+	if vrt.Thorough() {
+		lo, span = 60, 180
+	}
+	L := lo + vrt.Choice(span)
+	b := make([]byte, L)
+	for i := range b {
+		b[i] = 'a' + byte(i%26)
+	}
+	b[0] = 'A' + vrt.U8()%26 // one symbolic character
+	want := string(b)
+	werr := ds.WriteAttribute("s", want)
+	vrt.AssertNoErr(fw.Close(), "close-ok")
+	f, err := Open("c05h.h5")
+	vrt.AssertNoErr(err, "file-still-opens")
+	d := verifFindDataset(f, "/d")
+	vrt.Assert(d != nil, "dataset-found-at-path")
+	v, err := d.Read()
+	vrt.AssertNoErr(err, "data-read-ok")
+	vrt.Assert(len(v) == 1 && v[0] == float64(x), "data-unchanged")
+	got, err := d.ReadAttribute("s")
+	vrt.AssertNoErr(err, "attr-read-ok")
+	gs, ok := got.(string)
+	vrt.Assert(ok, "attr-type-string")
+	if werr == nil {
+		vrt.Assert(gs == want, "replaced-attribute-value")
+	} else {
+		vrt.Assert(gs == "x", "failed-replace-keeps-old-value")
+	}
+	vrt.Covered("capacity-checked")
+	_ = f.Close()
+}
+
+// a second session that makes an object header grow must not overlap the structure that follows it
+func VerifH_C05_api_session_growth() {
+	vrt.LoopBound(6000)
+	fw, err := CreateForWrite("c05s.h5", CreateTruncate)
+	vrt.AssertNoErr(err, "create-ok")
+	a, err := fw.CreateDataset("/a", Int32, []uint64{2})
+	vrt.AssertNoErr(err, "create-a-ok")
+	vrt.AssertNoErr(a.Write([]int32{1, 2}), "write-a-ok")
+	vrt.AssertNoErr(a.WriteAttribute("s", "x"), "attr-ok")
+	b, err := fw.CreateDataset("/b", Int32, []uint64{2})
+	vrt.AssertNoErr(err, "create-b-ok")
+	y0, y1 := vrt.I32(), vrt.I32()
+	vrt.AssertNoErr(b.Write([]int32{y0, y1}), "write-b-ok")
+	vrt.AssertNoErr(fw.Close(), "close-ok")
+	fw2, err := OpenForWrite("c05s.h5", OpenReadWrite)
+	vrt.AssertNoErr(err, "open-for-write-ok")
+	da, err := fw2.OpenDataset("/a")
+	vrt.AssertNoErr(err, "open-dataset-ok")
+	// grow /a's header by 0..12 bytes (string attribute replaced by a longer one) or by a whole new attribute
+	var werr error
+	if vrt.Bool() {
+		n := 1 + vrt.Choice(13)
+		s := make([]byte, n)
+		for i := range s {
+			s[i] = 'q'
+		}
+		werr = da.WriteAttribute("s", string(s))
+	} else {
+		werr = da.WriteAttribute("t", vrt.I32())
+	}
+	_ = werr
+	vrt.AssertNoErr(fw2.Close(), "session-close-ok")
+	f, err := Open("c05s.h5")
+	vrt.AssertNoErr(err, "file-still-opens")
+	db := verifFindDataset(f, "/b")
+	vrt.Assert(db != nil, "b-present")
+	if db != nil {
+		v, err := db.Read()
+		vrt.AssertNoErr(err, "b-read-ok")
+		vrt.Assert(len(v) == 2 && v[0] == float64(y0) && v[1] == float64(y1), "neighbour-not-overwritten")
+	}
+	daR := verifFindDataset(f, "/a")
+	vrt.Assert(daR != nil, "a-present")
+	if daR != nil {
+		v, err := daR.Read()
+		vrt.AssertNoErr(err, "a-read-ok")
+		vrt.Assert(len(v) == 2 && v[0] == 1 && v[1] == 2, "a-data-unchanged")
+	}
+	vrt.Covered("session-growth-checked")
+	_ = f.Close()
+}
